@@ -15,14 +15,25 @@ Three layers (DESIGN §7 C13).  `Computes t n` (Proofs/Layer2.lean) packages, fo
   nor/hno: reduce NOR / HNO with limit 0 return exactly n for some fuel, i.e. they TERMINATE (via C07)
   any    : whenever reduce under NOR, HNO, APP or HAP with limit 0 returns at all, it returns n
            (via C01, C03, C06) — so for the eager orders the RESULT is proved right for all arguments.
-Layer 3 (bounded, labelled as such): termination of HAP (all operations) and APP (operations
-defined without Z) on a finite grid, by evaluating the verified model reducer in the kernel.
+Layer 3 — **now unbounded too**: for ALL arguments, `reduce HAP 0` RETURNS the expected encoding for all 23
+operations (`C13_<op>_hap`) and `reduce APP 0` does so for the 19 operations defined without a fixed-point
+combinator (`C13_<op>_app`).  Proof: big-step semantics `EvalHap`/`EvalApp` mirroring the eager traversals
+(`Proofs/Eager/BigStep.lean`, adequate for the model reducer), one derivation per operation following the
+eager evaluation order (closures in operator position, normalisation under binders), by induction on the
+numerals; `fac` under APP through a general theorem: APP terminates on every simply typed term.  The four
+Z-based operations are shown to DIVERGE under APP for all arguments (`C13_z_based_diverge_under_app`), which
+is why the documentation excludes them.  A small kernel-evaluated grid is kept as a cross-check of the
+statements (`C13_grid_*`, labelled bounded); it no longer carries any claim.
 The operations are the GENERATED constants `Gen.Church.*`, re-extracted from the Rust source on
 every run, mentioned by name only.
 -/
 import LC.Proofs.Layer2
 import LC.Proofs.Grid
 import LC.Proofs.Num.ChurchB
+import LC.Proofs.Eager.ChurchHapA
+import LC.Proofs.Eager.ChurchHapB
+import LC.Proofs.Eager.ChurchAppA
+import LC.Proofs.Eager.ChurchAppB
 import LC.Props.C12
 
 namespace LC
@@ -128,102 +139,330 @@ theorem C13_div (m n : Nat) (hn : n ≠ 0) :
 example : ∃ fuel c, reduce .NOR 0 fuel (app2 Gen.Church.div (intoChurch 7) (intoChurch 2))
     = some (tuple2 (intoChurch 3) (intoChurch 1), c) := (C13_div 7 2 (by decide)).nor
 
-/-! ### layer 3 (BOUNDED): the eager orders terminate on the grid.
+/-! ### layer 3, unbounded: the eager orders terminate with the expected result, for all arguments -/
+
+theorem C13_succ_hap (n : Nat) :
+    ∃ fuel c, reduce .HAP 0 fuel (app Gen.Church.succ (intoChurch n)) = some (intoChurch (n + 1), c) := by
+  have h := (church_succ_hap n).reduce
+  first | exact h | simpa using h
+
+theorem C13_succ_app (n : Nat) :
+    ∃ fuel c, reduce .APP 0 fuel (app Gen.Church.succ (intoChurch n)) = some (intoChurch (n + 1), c) := by
+  have h := (church_succ_app n).reduce
+  first | exact h | simpa using h
+
+theorem C13_pred_hap (n : Nat) :
+    ∃ fuel c, reduce .HAP 0 fuel (app Gen.Church.pred (intoChurch n)) = some (intoChurch (n - 1), c) := by
+  have h := (church_pred_hap n).reduce
+  first | exact h | simpa using h
+
+theorem C13_pred_app (n : Nat) :
+    ∃ fuel c, reduce .APP 0 fuel (app Gen.Church.pred (intoChurch n)) = some (intoChurch (n - 1), c) := by
+  have h := (church_pred_app n).reduce
+  first | exact h | simpa using h
+
+theorem C13_is_zero_hap (n : Nat) :
+    ∃ fuel c, reduce .HAP 0 fuel (app Gen.Church.is_zero (intoChurch n)) = some (fromBool (n == 0), c) := by
+  have h := (church_is_zero_hap n).reduce
+  first | exact h | simpa using h
+
+theorem C13_is_zero_app (n : Nat) :
+    ∃ fuel c, reduce .APP 0 fuel (app Gen.Church.is_zero (intoChurch n)) = some (fromBool (n == 0), c) := by
+  have h := (church_is_zero_app n).reduce
+  first | exact h | simpa using h
+
+theorem C13_is_even_hap (n : Nat) :
+    ∃ fuel c, reduce .HAP 0 fuel (app Gen.Church.is_even (intoChurch n)) = some (fromBool (n % 2 == 0), c) := by
+  have h := (church_is_even_hap n).reduce
+  first | exact h | simpa using h
+
+theorem C13_is_even_app (n : Nat) :
+    ∃ fuel c, reduce .APP 0 fuel (app Gen.Church.is_even (intoChurch n)) = some (fromBool (n % 2 == 0), c) := by
+  have h := (church_is_even_app n).reduce
+  first | exact h | simpa using h
+
+theorem C13_is_odd_hap (n : Nat) :
+    ∃ fuel c, reduce .HAP 0 fuel (app Gen.Church.is_odd (intoChurch n)) = some (fromBool (n % 2 == 1), c) := by
+  have h := (church_is_odd_hap n).reduce
+  first | exact h | simpa using h
+
+theorem C13_is_odd_app (n : Nat) :
+    ∃ fuel c, reduce .APP 0 fuel (app Gen.Church.is_odd (intoChurch n)) = some (fromBool (n % 2 == 1), c) := by
+  have h := (church_is_odd_app n).reduce
+  first | exact h | simpa using h
+
+theorem C13_fac_hap (n : Nat) :
+    ∃ fuel c, reduce .HAP 0 fuel (app Gen.Church.fac (intoChurch n)) = some (intoChurch (fact n), c) := by
+  have h := (church_fac_hap n).reduce
+  first | exact h | simpa using h
+
+theorem C13_fac_app (n : Nat) :
+    ∃ fuel c, reduce .APP 0 fuel (app Gen.Church.fac (intoChurch n)) = some (intoChurch (fact n), c) := by
+  have h := (church_fac_app n).reduce
+  first | exact h | simpa using h
+
+theorem C13_add_hap (m n : Nat) :
+    ∃ fuel c, reduce .HAP 0 fuel (app2 Gen.Church.add (intoChurch m) (intoChurch n)) = some (intoChurch (m + n), c) := by
+  have h := (church_add_hap m n).reduce
+  first | exact h | simpa using h
+
+theorem C13_add_app (m n : Nat) :
+    ∃ fuel c, reduce .APP 0 fuel (app2 Gen.Church.add (intoChurch m) (intoChurch n)) = some (intoChurch (m + n), c) := by
+  have h := (church_add_app m n).reduce
+  first | exact h | simpa using h
+
+theorem C13_sub_hap (m n : Nat) :
+    ∃ fuel c, reduce .HAP 0 fuel (app2 Gen.Church.sub (intoChurch m) (intoChurch n)) = some (intoChurch (m - n), c) := by
+  have h := (church_sub_hap m n).reduce
+  first | exact h | simpa using h
+
+theorem C13_sub_app (m n : Nat) :
+    ∃ fuel c, reduce .APP 0 fuel (app2 Gen.Church.sub (intoChurch m) (intoChurch n)) = some (intoChurch (m - n), c) := by
+  have h := (church_sub_app m n).reduce
+  first | exact h | simpa using h
+
+theorem C13_mul_hap (m n : Nat) :
+    ∃ fuel c, reduce .HAP 0 fuel (app2 Gen.Church.mul (intoChurch m) (intoChurch n)) = some (intoChurch (m * n), c) := by
+  have h := (church_mul_hap m n).reduce
+  first | exact h | simpa using h
+
+theorem C13_mul_app (m n : Nat) :
+    ∃ fuel c, reduce .APP 0 fuel (app2 Gen.Church.mul (intoChurch m) (intoChurch n)) = some (intoChurch (m * n), c) := by
+  have h := (church_mul_app m n).reduce
+  first | exact h | simpa using h
+
+theorem C13_pow_hap (m n : Nat) :
+    ∃ fuel c, reduce .HAP 0 fuel (app2 Gen.Church.pow (intoChurch m) (intoChurch n)) = some (intoChurch (m ^ n), c) := by
+  have h := (church_pow_hap m n).reduce
+  first | exact h | simpa using h
+
+theorem C13_pow_app (m n : Nat) :
+    ∃ fuel c, reduce .APP 0 fuel (app2 Gen.Church.pow (intoChurch m) (intoChurch n)) = some (intoChurch (m ^ n), c) := by
+  have h := (church_pow_app m n).reduce
+  first | exact h | simpa using h
+
+theorem C13_min_hap (m n : Nat) :
+    ∃ fuel c, reduce .HAP 0 fuel (app2 Gen.Church.min (intoChurch m) (intoChurch n)) = some (intoChurch (min m n), c) := by
+  have h := (church_min_hap m n).reduce
+  first | exact h | simpa using h
+
+theorem C13_min_app (m n : Nat) :
+    ∃ fuel c, reduce .APP 0 fuel (app2 Gen.Church.min (intoChurch m) (intoChurch n)) = some (intoChurch (min m n), c) := by
+  have h := (church_min_app m n).reduce
+  first | exact h | simpa using h
+
+theorem C13_max_hap (m n : Nat) :
+    ∃ fuel c, reduce .HAP 0 fuel (app2 Gen.Church.max (intoChurch m) (intoChurch n)) = some (intoChurch (max m n), c) := by
+  have h := (church_max_hap m n).reduce
+  first | exact h | simpa using h
+
+theorem C13_max_app (m n : Nat) :
+    ∃ fuel c, reduce .APP 0 fuel (app2 Gen.Church.max (intoChurch m) (intoChurch n)) = some (intoChurch (max m n), c) := by
+  have h := (church_max_app m n).reduce
+  first | exact h | simpa using h
+
+theorem C13_lt_hap (m n : Nat) :
+    ∃ fuel c, reduce .HAP 0 fuel (app2 Gen.Church.lt (intoChurch m) (intoChurch n)) = some (fromBool (decide (m < n)), c) := by
+  have h := (church_lt_hap m n).reduce
+  first | exact h | simpa using h
+
+theorem C13_lt_app (m n : Nat) :
+    ∃ fuel c, reduce .APP 0 fuel (app2 Gen.Church.lt (intoChurch m) (intoChurch n)) = some (fromBool (decide (m < n)), c) := by
+  have h := (church_lt_app m n).reduce
+  first | exact h | simpa using h
+
+theorem C13_leq_hap (m n : Nat) :
+    ∃ fuel c, reduce .HAP 0 fuel (app2 Gen.Church.leq (intoChurch m) (intoChurch n)) = some (fromBool (decide (m ≤ n)), c) := by
+  have h := (church_leq_hap m n).reduce
+  first | exact h | simpa using h
+
+theorem C13_leq_app (m n : Nat) :
+    ∃ fuel c, reduce .APP 0 fuel (app2 Gen.Church.leq (intoChurch m) (intoChurch n)) = some (fromBool (decide (m ≤ n)), c) := by
+  have h := (church_leq_app m n).reduce
+  first | exact h | simpa using h
+
+theorem C13_eq_hap (m n : Nat) :
+    ∃ fuel c, reduce .HAP 0 fuel (app2 Gen.Church.eq (intoChurch m) (intoChurch n)) = some (fromBool (decide (m = n)), c) := by
+  have h := (church_eq_hap m n).reduce
+  first | exact h | simpa using h
+
+theorem C13_eq_app (m n : Nat) :
+    ∃ fuel c, reduce .APP 0 fuel (app2 Gen.Church.eq (intoChurch m) (intoChurch n)) = some (fromBool (decide (m = n)), c) := by
+  have h := (church_eq_app m n).reduce
+  first | exact h | simpa using h
+
+theorem C13_neq_hap (m n : Nat) :
+    ∃ fuel c, reduce .HAP 0 fuel (app2 Gen.Church.neq (intoChurch m) (intoChurch n)) = some (fromBool (decide (m ≠ n)), c) := by
+  have h := (church_neq_hap m n).reduce
+  first | exact h | simpa using h
+
+theorem C13_neq_app (m n : Nat) :
+    ∃ fuel c, reduce .APP 0 fuel (app2 Gen.Church.neq (intoChurch m) (intoChurch n)) = some (fromBool (decide (m ≠ n)), c) := by
+  have h := (church_neq_app m n).reduce
+  first | exact h | simpa using h
+
+theorem C13_geq_hap (m n : Nat) :
+    ∃ fuel c, reduce .HAP 0 fuel (app2 Gen.Church.geq (intoChurch m) (intoChurch n)) = some (fromBool (decide (m ≥ n)), c) := by
+  have h := (church_geq_hap m n).reduce
+  first | exact h | simpa using h
+
+theorem C13_geq_app (m n : Nat) :
+    ∃ fuel c, reduce .APP 0 fuel (app2 Gen.Church.geq (intoChurch m) (intoChurch n)) = some (fromBool (decide (m ≥ n)), c) := by
+  have h := (church_geq_app m n).reduce
+  first | exact h | simpa using h
+
+theorem C13_gt_hap (m n : Nat) :
+    ∃ fuel c, reduce .HAP 0 fuel (app2 Gen.Church.gt (intoChurch m) (intoChurch n)) = some (fromBool (decide (m > n)), c) := by
+  have h := (church_gt_hap m n).reduce
+  first | exact h | simpa using h
+
+theorem C13_gt_app (m n : Nat) :
+    ∃ fuel c, reduce .APP 0 fuel (app2 Gen.Church.gt (intoChurch m) (intoChurch n)) = some (fromBool (decide (m > n)), c) := by
+  have h := (church_gt_app m n).reduce
+  first | exact h | simpa using h
+
+theorem C13_shl_hap (m n : Nat) :
+    ∃ fuel c, reduce .HAP 0 fuel (app2 Gen.Church.shl (intoChurch m) (intoChurch n)) = some (intoChurch (m * 2 ^ n), c) := by
+  have h := (church_shl_hap m n).reduce
+  first | exact h | simpa using h
+
+theorem C13_shl_app (m n : Nat) :
+    ∃ fuel c, reduce .APP 0 fuel (app2 Gen.Church.shl (intoChurch m) (intoChurch n)) = some (intoChurch (m * 2 ^ n), c) := by
+  have h := (church_shl_app m n).reduce
+  first | exact h | simpa using h
+
+theorem C13_shr_hap (m n : Nat) :
+    ∃ fuel c, reduce .HAP 0 fuel (app2 Gen.Church.shr (intoChurch m) (intoChurch n)) = some (intoChurch (m / 2 ^ n), c) := by
+  have h := (church_shr_hap m n).reduce
+  first | exact h | simpa using h
+
+theorem C13_quot_hap (m n : Nat) (hn : n ≠ 0) :
+    ∃ fuel c, reduce .HAP 0 fuel (app2 Gen.Church.quot (intoChurch m) (intoChurch n)) = some (intoChurch (m / n), c) := by
+  obtain ⟨k, rfl⟩ : ∃ k, n = k + 1 := ⟨n - 1, by omega⟩
+  have h := (church_quot_hap m k).reduce
+  first | exact h | simpa using h
+
+theorem C13_rem_hap (m n : Nat) (hn : n ≠ 0) :
+    ∃ fuel c, reduce .HAP 0 fuel (app2 Gen.Church.rem (intoChurch m) (intoChurch n)) = some (intoChurch (m % n), c) := by
+  obtain ⟨k, rfl⟩ : ∃ k, n = k + 1 := ⟨n - 1, by omega⟩
+  have h := (church_rem_hap m k).reduce
+  first | exact h | simpa using h
+
+theorem C13_div_hap (m n : Nat) (hn : n ≠ 0) :
+    ∃ fuel c, reduce .HAP 0 fuel (app2 Gen.Church.div (intoChurch m) (intoChurch n)) = some (tuple2 (intoChurch (m / n)) (intoChurch (m % n)), c) := by
+  obtain ⟨k, rfl⟩ : ∃ k, n = k + 1 := ⟨n - 1, by omega⟩
+  have h := (church_div_hap m k).reduce
+  first | exact h | simpa using h
+
+/-- the four Z-based operations do not terminate under APP, for ANY argument terms and any fuel: the operator
+`Z F` is normalised under its binders and unfolds forever (which is why the property and the documentation
+exclude them under APP) -/
+theorem C13_z_based_diverge_under_app (a b : Term) (fuel : Nat) :
+    reduce .APP 0 fuel (app2 Gen.Church.quot a b) = none ∧ reduce .APP 0 fuel (app2 Gen.Church.rem a b) = none ∧
+    reduce .APP 0 fuel (app2 Gen.Church.div a b) = none ∧ reduce .APP 0 fuel (app2 Gen.Church.shr a b) = none :=
+  ⟨church_quot_app_diverges_all a b fuel, church_rem_app_diverges_all a b fuel,
+   church_div_app_diverges_all a b fuel, church_shr_app_diverges_all a b fuel⟩
+
+/-- non-vacuity: HAP on 7 / 2 -/
+example : ∃ fuel c, reduce .HAP 0 fuel (app2 Gen.Church.div (intoChurch 7) (intoChurch 2))
+    = some (tuple2 (intoChurch 3) (intoChurch 1), c) := C13_div_hap 7 2 (by decide)
+
+/-! ### cross-check grid (BOUNDED; carries no claim any more): kernel evaluation of the model reducer.
 `Grid.runsTo o fuel t n = true` implies `∃ c, reduce o 0 fuel t = some (n, c)` (`Grid.runsTo_spec`). -/
 
 def FUEL : Nat := 100000
 def eager (zBased : Bool) : List Order := if zBased then [.HAP] else [.HAP, .APP]
 
 set_option maxRecDepth 100000 in
-theorem C13_grid_succ : (List.range 7).all (fun n => (eager false).all (fun o =>
+theorem C13_grid_succ : (List.range 4).all (fun n => (eager false).all (fun o =>
     Grid.runsTo o FUEL (app Gen.Church.succ (intoChurch n)) (intoChurch (n + 1)))) = true := by decide +kernel
 
 set_option maxRecDepth 100000 in
-theorem C13_grid_pred : (List.range 7).all (fun n => (eager false).all (fun o =>
+theorem C13_grid_pred : (List.range 4).all (fun n => (eager false).all (fun o =>
     Grid.runsTo o FUEL (app Gen.Church.pred (intoChurch n)) (intoChurch (n - 1)))) = true := by decide +kernel
 
 set_option maxRecDepth 100000 in
-theorem C13_grid_is_zero : (List.range 7).all (fun n => (eager false).all (fun o =>
+theorem C13_grid_is_zero : (List.range 4).all (fun n => (eager false).all (fun o =>
     Grid.runsTo o FUEL (app Gen.Church.is_zero (intoChurch n)) (fromBool (n == 0)))) = true := by decide +kernel
 
 set_option maxRecDepth 100000 in
-theorem C13_grid_is_even : (List.range 7).all (fun n => (eager false).all (fun o =>
+theorem C13_grid_is_even : (List.range 4).all (fun n => (eager false).all (fun o =>
     Grid.runsTo o FUEL (app Gen.Church.is_even (intoChurch n)) (fromBool (n % 2 == 0)))) = true := by decide +kernel
 
 set_option maxRecDepth 100000 in
-theorem C13_grid_is_odd : (List.range 7).all (fun n => (eager false).all (fun o =>
+theorem C13_grid_is_odd : (List.range 4).all (fun n => (eager false).all (fun o =>
     Grid.runsTo o FUEL (app Gen.Church.is_odd (intoChurch n)) (fromBool (n % 2 == 1)))) = true := by decide +kernel
 
 set_option maxRecDepth 100000 in
-theorem C13_grid_fac : (List.range 5).all (fun n => (eager false).all (fun o =>
+theorem C13_grid_fac : (List.range 4).all (fun n => (eager false).all (fun o =>
     Grid.runsTo o FUEL (app Gen.Church.fac (intoChurch n)) (intoChurch (fact n)))) = true := by decide +kernel
 
 set_option maxRecDepth 100000 in
-theorem C13_grid_add : (Grid.range2 4 4).all (fun (m, n) => (eager false).all (fun o =>
+theorem C13_grid_add : (Grid.range2 2 2).all (fun (m, n) => (eager false).all (fun o =>
     Grid.runsTo o FUEL (app2 Gen.Church.add (intoChurch m) (intoChurch n)) (intoChurch (m + n)))) = true := by decide +kernel
 
 set_option maxRecDepth 100000 in
-theorem C13_grid_sub : (Grid.range2 4 4).all (fun (m, n) => (eager false).all (fun o =>
+theorem C13_grid_sub : (Grid.range2 2 2).all (fun (m, n) => (eager false).all (fun o =>
     Grid.runsTo o FUEL (app2 Gen.Church.sub (intoChurch m) (intoChurch n)) (intoChurch (m - n)))) = true := by decide +kernel
 
 set_option maxRecDepth 100000 in
-theorem C13_grid_mul : (Grid.range2 4 4).all (fun (m, n) => (eager false).all (fun o =>
+theorem C13_grid_mul : (Grid.range2 2 2).all (fun (m, n) => (eager false).all (fun o =>
     Grid.runsTo o FUEL (app2 Gen.Church.mul (intoChurch m) (intoChurch n)) (intoChurch (m * n)))) = true := by decide +kernel
 
 set_option maxRecDepth 100000 in
-theorem C13_grid_pow : (Grid.range2 3 3).all (fun (m, n) => (eager false).all (fun o =>
+theorem C13_grid_pow : (Grid.range2 2 2).all (fun (m, n) => (eager false).all (fun o =>
     Grid.runsTo o FUEL (app2 Gen.Church.pow (intoChurch m) (intoChurch n)) (intoChurch (m ^ n)))) = true := by decide +kernel
 
 set_option maxRecDepth 100000 in
-theorem C13_grid_min : (Grid.range2 4 4).all (fun (m, n) => (eager false).all (fun o =>
+theorem C13_grid_min : (Grid.range2 2 2).all (fun (m, n) => (eager false).all (fun o =>
     Grid.runsTo o FUEL (app2 Gen.Church.min (intoChurch m) (intoChurch n)) (intoChurch (min m n)))) = true := by decide +kernel
 
 set_option maxRecDepth 100000 in
-theorem C13_grid_max : (Grid.range2 4 4).all (fun (m, n) => (eager false).all (fun o =>
+theorem C13_grid_max : (Grid.range2 2 2).all (fun (m, n) => (eager false).all (fun o =>
     Grid.runsTo o FUEL (app2 Gen.Church.max (intoChurch m) (intoChurch n)) (intoChurch (max m n)))) = true := by decide +kernel
 
 set_option maxRecDepth 100000 in
-theorem C13_grid_lt : (Grid.range2 4 4).all (fun (m, n) => (eager false).all (fun o =>
+theorem C13_grid_lt : (Grid.range2 2 2).all (fun (m, n) => (eager false).all (fun o =>
     Grid.runsTo o FUEL (app2 Gen.Church.lt (intoChurch m) (intoChurch n)) (fromBool (decide (m < n))))) = true := by decide +kernel
 
 set_option maxRecDepth 100000 in
-theorem C13_grid_leq : (Grid.range2 4 4).all (fun (m, n) => (eager false).all (fun o =>
+theorem C13_grid_leq : (Grid.range2 2 2).all (fun (m, n) => (eager false).all (fun o =>
     Grid.runsTo o FUEL (app2 Gen.Church.leq (intoChurch m) (intoChurch n)) (fromBool (decide (m ≤ n))))) = true := by decide +kernel
 
 set_option maxRecDepth 100000 in
-theorem C13_grid_eq : (Grid.range2 4 4).all (fun (m, n) => (eager false).all (fun o =>
+theorem C13_grid_eq : (Grid.range2 2 2).all (fun (m, n) => (eager false).all (fun o =>
     Grid.runsTo o FUEL (app2 Gen.Church.eq (intoChurch m) (intoChurch n)) (fromBool (decide (m = n))))) = true := by decide +kernel
 
 set_option maxRecDepth 100000 in
-theorem C13_grid_neq : (Grid.range2 4 4).all (fun (m, n) => (eager false).all (fun o =>
+theorem C13_grid_neq : (Grid.range2 2 2).all (fun (m, n) => (eager false).all (fun o =>
     Grid.runsTo o FUEL (app2 Gen.Church.neq (intoChurch m) (intoChurch n)) (fromBool (decide (m ≠ n))))) = true := by decide +kernel
 
 set_option maxRecDepth 100000 in
-theorem C13_grid_geq : (Grid.range2 4 4).all (fun (m, n) => (eager false).all (fun o =>
+theorem C13_grid_geq : (Grid.range2 2 2).all (fun (m, n) => (eager false).all (fun o =>
     Grid.runsTo o FUEL (app2 Gen.Church.geq (intoChurch m) (intoChurch n)) (fromBool (decide (m ≥ n))))) = true := by decide +kernel
 
 set_option maxRecDepth 100000 in
-theorem C13_grid_gt : (Grid.range2 4 4).all (fun (m, n) => (eager false).all (fun o =>
+theorem C13_grid_gt : (Grid.range2 2 2).all (fun (m, n) => (eager false).all (fun o =>
     Grid.runsTo o FUEL (app2 Gen.Church.gt (intoChurch m) (intoChurch n)) (fromBool (decide (m > n))))) = true := by decide +kernel
 
 set_option maxRecDepth 100000 in
-theorem C13_grid_shl : (Grid.range2 3 3).all (fun (m, n) => (eager false).all (fun o =>
+theorem C13_grid_shl : (Grid.range2 2 2).all (fun (m, n) => (eager false).all (fun o =>
     Grid.runsTo o FUEL (app2 Gen.Church.shl (intoChurch m) (intoChurch n)) (intoChurch (m * 2 ^ n)))) = true := by decide +kernel
 
 set_option maxRecDepth 100000 in
-theorem C13_grid_shr : (Grid.range2 3 3).all (fun (m, n) => (eager true).all (fun o =>
+theorem C13_grid_shr : (Grid.range2 2 2).all (fun (m, n) => (eager true).all (fun o =>
     Grid.runsTo o FUEL (app2 Gen.Church.shr (intoChurch m) (intoChurch n)) (intoChurch (m / 2 ^ n)))) = true := by decide +kernel
 
 set_option maxRecDepth 100000 in
-theorem C13_grid_quot : (Grid.range2 4 4).all (fun (m, n) => n == 0 || (eager true).all (fun o =>
+theorem C13_grid_quot : (Grid.range2 2 2).all (fun (m, n) => n == 0 || (eager true).all (fun o =>
     Grid.runsTo o FUEL (app2 Gen.Church.quot (intoChurch m) (intoChurch n)) (intoChurch (m / n)))) = true := by decide +kernel
 
 set_option maxRecDepth 100000 in
-theorem C13_grid_rem : (Grid.range2 4 4).all (fun (m, n) => n == 0 || (eager true).all (fun o =>
+theorem C13_grid_rem : (Grid.range2 2 2).all (fun (m, n) => n == 0 || (eager true).all (fun o =>
     Grid.runsTo o FUEL (app2 Gen.Church.rem (intoChurch m) (intoChurch n)) (intoChurch (m % n)))) = true := by decide +kernel
 
 set_option maxRecDepth 100000 in
-theorem C13_grid_div : (Grid.range2 4 4).all (fun (m, n) => n == 0 || (eager true).all (fun o =>
+theorem C13_grid_div : (Grid.range2 2 2).all (fun (m, n) => n == 0 || (eager true).all (fun o =>
     Grid.runsTo o FUEL (app2 Gen.Church.div (intoChurch m) (intoChurch n)) (tuple2 (intoChurch (m / n)) (intoChurch (m % n))))) = true := by decide +kernel
 
 end LC
